@@ -140,7 +140,7 @@ def run(ctx):
     sops += [f"sig.usq {n_} {ctx.seed * 10 + 7} {iv_}" for n_, iv_ in ([(50000, 50)] if ctx.tier == "quick" else [(50000, 50), (1000000, 15)])]
     for o in sops:
         try:
-            x = pvlib.run_lines(sig, [o], env=pvlib.san_env(), timeout=120, stall=60)[0]
+            x = pvlib.run_lines(sig, [o], env=pvlib.san_env(), timeout=400, stall=300)[0]
         except Exception as e:
             x = "HANG " + repr(e)[:100]
         ctx.count("real-semaphore-under-signals", 1, [o])
